@@ -2,11 +2,56 @@
 //! `Members::next`). No stubs: this is foca's membership code as is.
 use alloc::vec::Vec;
 
-use super::kit::*;
-use super::ops_api::spec_apply;
-use crate::{member::Members, Incarnation, Member, State};
+use super::kit::{arb_state, rank, Src, TapeRng};
+use crate::{member::Members, Identity, Incarnation, Member, State};
+
+/// Identity for the membership-level laws: (address, generation) and nothing
+/// else. (The kit's `Id` carries layout ballast that only matters for
+/// `Result<_, foca::Error>` and would triple the cost of every `Vec::swap` here.)
+#[derive(Clone, Copy, Debug, PartialEq, Eq)]
+pub struct Id {
+    pub addr: u8,
+    pub gen: u8,
+}
+impl Id {
+    pub const fn new(addr: u8, gen: u8) -> Self {
+        Self { addr, gen }
+    }
+}
+impl Identity for Id {
+    type Addr = u8;
+    fn renew(&self) -> Option<Self> {
+        None
+    }
+    fn addr(&self) -> u8 {
+        self.addr
+    }
+    fn win_addr_conflict(&self, adversary: &Self) -> bool {
+        self.gen > adversary.gen
+    }
+}
 
 type Rec = (Id, Incarnation, State);
+
+/// SWIM precedence (same text as `ops_api::spec_apply`, for this identity type)
+fn spec_apply(r: Option<Rec>, u: Rec) -> Rec {
+    match r {
+        None => u,
+        Some(r) => {
+            if r.0 == u.0 {
+                if r.2 != State::Down && rank(u.1, u.2) > rank(r.1, r.2) {
+                    u
+                } else {
+                    r
+                }
+            } else if u.0.gen > r.0.gen {
+                u
+            } else {
+                r
+            }
+        }
+    }
+}
 
 fn rec_of(m: &Member<Id>) -> Rec {
     (*m.id(), m.incarnation(), m.state())
@@ -72,8 +117,17 @@ fn arb_base(s: &mut impl Src, addr: u8) -> Option<Member<Id>> {
 /// Commutativity: two updates about one address, applied in both orders to the
 /// same arbitrary base, give the same view.
 pub fn c01_commute<S: Src>(s: &mut S) {
+    c01_commute_base(s, true)
+}
+/// same, starting from no record (the first update is inserted)
+pub fn c01_commute_new<S: Src>(s: &mut S) {
+    c01_commute_base(s, false)
+}
+fn c01_commute_base<S: Src>(s: &mut S, known: bool) {
     let addr = s.u8();
-    let base = arb_base(s, addr);
+    // (case split on a concrete flag: with a symbolic one every `apply` encodes
+    // both the lookup and the insertion path)
+    let base = if known { Some(arb_update_at(s, addr)) } else { None };
     let u1 = arb_update_at(s, addr);
     let u2 = arb_update_at(s, addr);
     let mut a = members_with(base.clone(), None);
@@ -91,7 +145,7 @@ pub fn c01_commute<S: Src>(s: &mut S) {
     // and equals the join computed by the specification
     let want = spec_apply(Some(spec_apply(base.as_ref().map(rec_of), rec_of(&u1))), rec_of(&u2));
     vassert!(agree(ra, Some(want)), "c01: the view is the join of base and updates in SWIM precedence order");
-    vcover!(u1.id() != u2.id() && base.is_some(), "conflicting identities");
+    vcover!(u1.id() != u2.id(), "conflicting identities");
     vcover!(u1.id() == u2.id() && u1.state() == State::Down && u2.state() != State::Down, "down vs active");
     vcover!(u1.incarnation() == u16::MAX, "max incarnation");
 }
